@@ -5,6 +5,15 @@ here = os.path.dirname(os.path.dirname(os.path.abspath(__file__)))
 
 # id -> (technique, level text, level note, design ref)
 CHECKS = {
+    "C13": (
+        "Hypothesis differential testing across the seven input forms + call-counting transforms + Counter oracle for inspect()",
+        "The same generated annotation is supplied as path, gzip path, string, list of Features, one-shot generator, DataIterator and FeatureDB for "
+        "every checklines in 0..n+2; iteration sequences and database snapshots must be equal (and equal to the text model for the path form); a "
+        "counting transform must be called exactly n times and exactly the rows for which it returned a false value are missing; inspect() must "
+        "equal Counters over the first `limit` features.",
+        "Every generated line exhibits its dialect (otherwise the forms legitimately differ); GTF compared with inference disabled.",
+        "DESIGN.md section 4 C13",
+    ),
     "C01": (
         "Hypothesis-generated annotation files rendered from an independent text model; round-trip / inverse oracle + reopen + re-import metamorphic relation",
         "Files of 1-12 lines in every grammar dialect are rendered from structured records; after create_db the rows must equal the records "
